@@ -59,7 +59,7 @@ public:
     {
         T const value = std::generate_canonical<T, std::numeric_limits<T>::digits>(generator);
 
-        auto const iterator = std::lower_bound(weight_sums.begin(), weight_sums.end(), value);
+        auto const iterator = std::upper_bound(weight_sums.begin(), weight_sums.end(), value);
 
         I const result = std::distance(weight_sums.begin(), iterator);
 
